@@ -296,3 +296,125 @@ func writesField(g *ssa.Function, field string, depth int) bool {
 	})
 	return found
 }
+
+// c10LastInFlowChild (R17): whether the bottom margins of a block collapse through it, or with its last child, is
+// decided on its last *in-flow* child: floats and absolutely positioned boxes after it do not count (CSS 2.1
+// §8.3.1).  blockContainerLayout therefore looks for that child backwards past the out-of-flow ones: the box it
+// compares with nil before asking for the clearance is selected inside a loop over the laid-out children, under a
+// test of IsInNormalFlow — not read at one fixed position.  (Looking at the very last child only, a wrapper whose
+// last child is a float is treated as empty: the next sibling is placed at its top.)
+func c10LastInFlowChild(c *core.Check) {
+	p := c.Prog
+	r := c.Rule("R17", "the last in-flow child is searched past the out-of-flow ones: in html/layout.blockContainerLayout the box whose comparison with nil leads to getClearance (margins collapsing through) gets its non-nil values inside a loop, under a test of IsInNormalFlow", 1)
+	fn := p.Fn("html/layout", "blockContainerLayout")
+	if fn == nil {
+		r.Anchor("html/layout.blockContainerLayout")
+		return
+	}
+	key := "html/layout.blockContainerLayout | last in-flow child"
+	// the comparison with nil whose true side reaches getClearance
+	var subject ssa.Value
+	for _, b := range fn.Blocks {
+		if len(b.Instrs) == 0 {
+			continue
+		}
+		ifi, ok := b.Instrs[len(b.Instrs)-1].(*ssa.If)
+		if !ok {
+			continue
+		}
+		cmp, ok := ifi.Cond.(*ssa.BinOp)
+		if !ok || cmp.Op != token.EQL {
+			continue
+		}
+		if k, ok := cmp.Y.(*ssa.Const); !ok || !k.IsNil() {
+			continue
+		}
+		if _, isPhi := cmp.X.(*ssa.Phi); !isPhi {
+			continue
+		}
+		reach := core.ForwardReach(b.Succs[0], nil, func(x *ssa.BasicBlock) bool { return x == b.Succs[1] })
+		found := false
+		for rb := range reach {
+			for _, in := range rb.Instrs {
+				if call, ok := in.(*ssa.Call); ok && call.Call.StaticCallee() != nil && call.Call.StaticCallee().Name() == "getClearance" {
+					found = true
+				}
+			}
+		}
+		if found && b.Succs[0] != b.Succs[1] {
+			// the nearest one: the true successor itself holds or leads to the call before any other branch on it
+			subject = cmp.X
+		}
+	}
+	if subject == nil {
+		r.Unknown(key, p.Pos(fn.Pos()), "no comparison of a box with nil leading to getClearance")
+		return
+	}
+	// non-nil values flowing into the subject
+	var sources []ssa.Value
+	seen := map[ssa.Value]bool{}
+	var walk func(ssa.Value)
+	walk = func(v ssa.Value) {
+		if seen[v] {
+			return
+		}
+		seen[v] = true
+		if phi, ok := v.(*ssa.Phi); ok {
+			for _, e := range phi.Edges {
+				walk(e)
+			}
+			return
+		}
+		if k, ok := v.(*ssa.Const); ok && k.IsNil() {
+			return
+		}
+		sources = append(sources, v)
+	}
+	walk(subject)
+	if len(sources) == 0 {
+		r.Unknown(key, p.Pos(fn.Pos()), "the box compared with nil has no non-nil value")
+		return
+	}
+	bad := ""
+	for _, s := range sources {
+		in, ok := s.(ssa.Instruction)
+		if !ok {
+			bad = "a value that is not computed in the function"
+			continue
+		}
+		l := core.InnermostLoop(fn, in.Block())
+		if l == nil {
+			bad = "a child read at a fixed position (" + p.Pos(in.Pos()) + ")"
+			continue
+		}
+		guarded := false
+		for _, a := range core.CondAtomsReaching(fn, in.Block()) {
+			if call, ok := a.(*ssa.Call); ok && isCallOf(call, "IsInNormalFlow") && l.Blocks[call.Block()] {
+				guarded = true
+			}
+		}
+		// the selection may also happen where the phi merges: a test of IsInNormalFlow anywhere in the same loop
+		if !guarded {
+			for b := range l.Blocks {
+				for _, in2 := range b.Instrs {
+					if call, ok := in2.(*ssa.Call); ok && isCallOf(call, "IsInNormalFlow") {
+						guarded = true
+					}
+				}
+			}
+		}
+		if !guarded {
+			bad = "a child selected in a loop that does not test IsInNormalFlow"
+		}
+	}
+	r.Cond(bad == "", key, p.Pos(fn.Pos()), fmt.Sprintf("%d selection(s), each inside a loop that tests IsInNormalFlow", len(sources)), "the box is "+bad+": out-of-flow children after the last in-flow one make the block look empty")
+}
+
+// isCallOf: the call is a call (static or through an interface) of a function or method with this name.
+func isCallOf(call *ssa.Call, name string) bool {
+	if call.Call.IsInvoke() {
+		return call.Call.Method.Name() == name
+	}
+	callee := call.Call.StaticCallee()
+	return callee != nil && callee.Name() == name
+}
